@@ -17,7 +17,7 @@ ENTRIES = [
     Entry('bohm-operator-order', E, [('        stressC = self._multiply(cM4, self._multiply(self._multiply(S, multTerm), eigenstrain))\n        stress0 = self._multiply(cM4, self._multiply(multTerm, eigenstrain))\n        return self._strainEnergy(stressC-stress0, eigenstrain, V)',
                                       '        stressC = self._multiply(cM4, self._multiply(self._multiply(multTerm, S), eigenstrain))\n        stress0 = self._multiply(cM4, self._multiply(multTerm, eigenstrain))\n        return self._strainEnergy(stressC-stress0, eigenstrain, V)')], 'R16.5'),
     Entry('ellipsoid-2nd-rank-missing-identity', E, [('        multTerm = np.matmul(c2, S - np.eye(6))', '        multTerm = np.matmul(c2, S)')], 'R16.5'),
-    Entry('weight-digit', L, [("q53 = [ ('A1', 0.000143829419053)", "q53 = [ ('A1', 0.000143829419153)")], 'R16.2'),
+    Entry('weight-digit', L, [("q53 = [ ('A1', 0.000143829419053)", "q53 = [ ('A1', 0.000143829429053)")], 'R16.2'),
     Entry('orbit-multiplicity', L, [('            w = [node[i][1] for n in range(24)]\n            weights = np.concatenate((weights, w))\n\n        #C - (i, i, j)', '            w = [node[i][1] for n in range(20)]\n            weights = np.concatenate((weights, w))\n\n        #C - (i, i, j)')], 'R16.2'),
     Entry('A1-axis-point', L, [('            theta = np.concatenate((theta, [np.pi/2, np.pi/2, np.pi/2, np.pi/2, 0, np.pi]))', '            theta = np.concatenate((theta, [np.pi/2, np.pi/2, np.pi/2, np.pi/2, 0, np.pi/4]))')], 'R16.2'),
     # benign
